@@ -229,10 +229,11 @@ def run(ctx):
         problem = "no arm for magic %d" % mag if got is None else diff_terms(got, KS.MESSAGE[mag], check_bind=False)
         if not problem:
             binds = [(g[2] if g[0] == "P" else g[1]) for g in got]
-            want = ["crc", "message.magic", "message.attributes"] + (["message.timestamp"] if mag == 1 else []) + ["message.key", "message.value"]
-            alt_ts = [b for b in binds if b == "ts"]
-            if [b for b in binds if b != "ts"] != [w for w in want if not (w == "message.timestamp" and alt_ts)]:
-                problem = "fields bound to %s, expected %s" % (binds, want)
+            want = [None, "message.magic", "message.attributes"] + (["message.timestamp"] if mag == 1 else []) + ["message.key", "message.value"]
+            for b, w in zip(binds, want):
+                # a bare local (the computed crc, the clock value substituted for a missing timestamp) is not compared
+                if w is not None and b != w and not (w == "message.timestamp" and b.isidentifier()):
+                    problem = "fields bound to %s, expected %s" % (binds, want)
         r.check(not problem, "%s#format-%d" % (em.qname, mag), "message format %d: %s" % (mag, problem), where(em, em.node),
                 "brokers reject the message (CRC/size mismatch) or store a different key/value")
     ems = ctx.func(KCQ + "._encode_message_set")
@@ -286,12 +287,13 @@ def run(ctx):
         for s in samples:
             body = arms[res[s]][1] if res[s] is not None else []
             v = None
+            hv = [c for c in calls_in(f, "_encode_message_header")]
+            hvar = norm(kwarg(hv[0], "api_version", 3)) if hv else None
             for st in body:
-                if isinstance(st, ast.Assign) and norm(st.targets[0]) == "req_api_version":
+                if isinstance(st, ast.Assign) and norm(st.targets[0]) == hvar:
                     v = eval(compile(ast.Expression(st.value), "<v>", "eval"), {"__builtins__": {}}, {"api_version": s})
             vals[s] = v
-        hv = [c for c in calls_in(f, "_encode_message_header")]
-        bound = bool(hv) and norm(kwarg(hv[0], "api_version", 3)) == "req_api_version"
+        bound = bool(hv) and hvar is not None and hvar.isidentifier() and hvar != "api_version"
         r.check(bound and vals == {0: 0, 2: 2, 3: 2, 9: 2}, "%s.%s#header-version" % (KCQ, name),
                 "header version for negotiated {0,2,3,9} is %s; must be 0 for 0 and 2 for >= 2" % vals, where(f, f.node),
                 "broker advertising max version 9: request carries version 9 with a version-2 body", facts=["%s" % vals])
